@@ -458,11 +458,11 @@ def check_property(pid, tier, seed, only_sub=None, jobs=None):
         print('  %s/%s: %s' % (pid, sub_name, msg[:600]))
         print('VIOLATION property=%s replay=%s' % (pid, path))
     print('%s %s seed=%d: %d evaluations, %d violations, %.1fs' % (pid, tier, seed, ev['coverage']['evaluations'], len(violations), ev['wall_s']))
+    for s, h in harness:
+        sys.stderr.write('HARNESS ERROR in %s/%s:\n%s\n' % (pid, s, h))
     if violations:
         return 1
     if harness:
-        for s, h in harness:
-            sys.stderr.write('HARNESS ERROR in %s/%s:\n%s\n' % (pid, s, h))
         return 2
     if total_eval == 0:
         sys.stderr.write('HARNESS ERROR: no case executed\n')
